@@ -17,7 +17,8 @@ class SNodes(Sym):
 
 
 class OidTheory:
-    def __init__(self, rt):
+    def __init__(self, rt, order=True):
+        """order=False: only the function symbols and `len >= 0` (units that never compare OIDs)"""
         self.rt = rt
         th = rt.theory
         F = z3.Function
@@ -29,6 +30,13 @@ class OidTheory:
         x, y, z, r, r2 = [z3.Const(n, OID) for n in ("x", "y", "z", "r", "r2")]
         lt, below = self.lt, self.below
         A = z3.ForAll
+        rt.getattr_hooks["SOid"] = self._getattr
+        rt.contains_hooks["SOid"] = self._contains
+        rt.str_hooks["SOid"] = lambda rt_, i, v: SStr(rt_.f_oidstr(v.e))
+        self._cls = None
+        if not order:
+            th.add("oid:len", A([x], self.olen(x) >= 0))
+            return
         # L1: strict total order
         th.add("oid:irreflexive", A([x], z3.Not(lt(x, x))))
         th.add("oid:transitive", A([x, y, z], z3.Implies(z3.And(lt(x, y), lt(y, z)), lt(x, z))))
